@@ -14,8 +14,11 @@ def sign(x):
     return eps
 
 
-@sign.register
-def _(x: float):
+@sign.register(float)
+@sign.register(int)
+@sign.register(np.integer)
+def _(x):
+    # scalars: python and numpy integers as well as floats (an int used to fall through to the iterable version)
     if x < 0:
         return -1.0
 
